@@ -197,7 +197,8 @@ def equal(a, b, path='', diffs=None):
             if k == 'name':
                 import re
                 # (an auto-generated name is the class name followed by exactly five digits; 'P12' is somebody's choice)
-                auto = re.match('^' + type(a).__name__ + '[0-9]{5}$', va[k] or '')
+                # (... or more digits without a leading zero, once the library's counter has passed 99999)
+                auto = re.match('^' + type(a).__name__ + '([0-9]{5}|[1-9][0-9]{5,})$', va[k] or '')
                 if auto:
                     continue
             equal(va[k], vb.get(k, '<missing>'), f'{path}.{k}', diffs)
@@ -477,7 +478,7 @@ def run_case(idx, rng, P, rep):
         if shape != 'named' and rng.random() < 0.3:
             kw['name'] = rng.choice(['explicit', cname, 'Outer', cname + '1x', cname + '12_copy', cname + '3 (2)', 'n0',
                                      cname + '00042_copy', cname + '00007-b', cname + '000011', cname + '0001',
-                                     cname + '_2024_00017', cname + '/nightly/20240', cname + 'ner70000'])
+                                     cname + '_2024_00017', cname + '/nightly/20240', cname + 'ner70000', cname + '0123456'])
         try:
             obj = cls(**kw)
         except Exception as e:   # noqa: BLE001
